@@ -165,11 +165,24 @@ def rule_Y2(ctx: Ctx) -> None:
 def rule_Y3(ctx: Ctx) -> None:
     f = ctx.index.func(f"{MP}._rowcol_to_coord")
     p = f.params()[1]
-    sw = X.assignments_to(f.node, p)
-    ok = len(sw) == 1 and X.U(sw[0]).replace(" ", "") == f"np.array([{p}[1],{p}[0]])"
-    rets = X.returns_of(f.node)
-    ok2 = len(rets) == 1 and N.aff_eq(N.affine(rets[0].value), N.affine(X.expr_of(f"self.unit_length * ({p} + 0.5)")))
-    ctx.judge(f, ok and ok2, {"swap": X.U(sw[0]) if sw else None, "returns": X.U(rets[0].value) if rets else None},
+    from sa import dtable as DT
+
+    row = DT.table(f.node, {})[0]
+    val = row["outcome"][1] if row["outcome"][0] == "return" else None
+    # the returned value with every temporary substituted; the swap may be spelled np.array([p[1], p[0]]), p[::-1], np.flip(p) ...
+    ok_ret: bool | None = None
+    if val is not None:
+        txt = X.U(val)
+        for swap in (f"np.array([{p}[1], {p}[0]])", f"np.array(({p}[1], {p}[0]))", f"np.asarray([{p}[1], {p}[0]])", f"{p}[::-1]", f"np.array({p}[::-1])", f"np.flip({p})", f"np.array({p})[::-1]"):
+            txt = txt.replace(swap, "_SWAPPED_")
+        try:
+            ok_ret = "_SWAPPED_" in txt and p not in N.names_in(ast.parse(txt, mode="eval").body) \
+                and N.aff_eq(N.affine(ast.parse(txt, mode="eval").body), N.affine(X.expr_of("self.unit_length * (_SWAPPED_ + 0.5)")))
+        except Exception:
+            ok_ret = None
+    elif row["outcome"][0] != "unknown":
+        ok_ret = False
+    ctx.judge(f, ok_ret, {"returns": X.U(val)[:160] if val is not None else DT.outcome_str(row["outcome"])},
               "(row, col) maps to (x, y) = unit_length * ((col, row) + 0.5): columns horizontal, rows vertical, through cell centres",
               "paths are drawn transposed or off-centre")
     g = ctx.index.func(f"{MP}._plot_path")
